@@ -98,7 +98,7 @@ func init() {
 			"number vs string pairs are asserted for numbers whose decimal text has no exponent",
 		},
 		MinNontrivial: 1000,
-		Floor:         []string{"num-num.same-type", "num-num.mixed-type", "num-num.signed-unsigned", "num-num.int-float", "str-str", "num-str", "str-num", "triple.num", "triple.str", "sql.where", "sql.in", "sql.order", "sql.join.hash", "sql.join.loop", "sql.join.mixed-type", "sql.join.num-str"},
+		Floor:         []string{"num-num.same-type", "num-num.mixed-type", "num-num.signed-unsigned", "num-num.int-float", "str-str", "num-str", "str-num", "triple.num", "triple.str", "sql.where", "sql.in", "sql.in.long", "sql.between", "sql.order", "sql.join.hash", "sql.join.loop", "sql.join.mixed-type", "sql.join.num-str"},
 		Phases: []fw.Phase{
 			{Name: "pairs", N: func(t fw.Tier) int { return nPairs() }, Run: c15Pair, Batch: 0},
 			{Name: "sql", N: func(t fw.Tier) int { return pick(t, 1200, 20000) }, Run: c15SQL},
@@ -311,7 +311,9 @@ func c15Triples(c *fw.Case) {
 // c15SQLDomain: values at which the decimal text, the value comparison and the
 // join key fingerprint are all defined and must agree.
 var c15SQLNums = []any{int(1), int8(1), uint(1), float64(1), uint8(200), float64(200), int16(200), float32(2), int64(2), uint64(3), int32(3), float64(1.5), float32(1.5), int(-1), float64(-1), int8(-1),
-	uint16(65535), int32(65535), float64(65535), uint32(70000), int(70000), float64(0), int(0), uint8(0), float32(0.25), float64(0.25), int64(42), float64(42), uint(42)}
+	uint16(65535), int32(65535), float64(65535), uint32(70000), int(70000), float64(0), int(0), uint8(0), float32(0.25), float64(0.25), int64(42), float64(42), uint(42),
+	// integers that print with an exponent as floats: here they come as integer types only
+	int(1000003), int64(1000003), uint32(1000003), int(4000000), uint64(4000000)}
 var c15SQLStrs = []any{"1", "200", "3", "42", "1.5", "-1", "x", "0", "65535", "2"}
 
 // c15SQL: the comparison as WHERE, IN, ORDER BY and joins use it.
@@ -330,7 +332,23 @@ func c15SQL(c *fw.Case) {
 		return rows
 	}
 	exact := func(a, b any) int { w, _, _ := c15Expect(a, b); return w }
-	kind := c.Idx % 4
+	// a numeric literal of the query text reaches the comparison as a float64
+	outOfDomain := false
+	asLit := func(v any) any {
+		if val.IsNumber(v) {
+			f, _ := val.Rat(v).Float64()
+			return f
+		}
+		return v
+	}
+	exactLit := func(k, lit any) int {
+		w, ok, _ := c15Expect(k, asLit(lit))
+		if !ok {
+			outOfDomain = true
+		}
+		return w
+	}
+	kind := c.Idx % 6
 	withStr := c.Chance(0.5)
 	lt, rt := mk(2+c.Intn(7), withStr), mk(2+c.Intn(7), withStr)
 	doc := func() map[string]any { return map[string]any{"lt": val.Copy(lt), "rt": val.Copy(rt)} }
@@ -342,10 +360,14 @@ func c15SQL(c *fw.Case) {
 		sql := fmt.Sprintf("SELECT id FROM lt WHERE k %s %v", op, lit)
 		var want []any
 		for _, r := range lt {
-			w := exact(keyOf(r), lit)
+			w := exactLit(keyOf(r), lit)
 			if map[string]bool{"=": w == 0, "<": w < 0, ">=": w >= 0, "!=": w != 0, "<=": w <= 0, ">": w > 0}[op] {
 				want = append(want, r.(map[string]any)["id"])
 			}
+		}
+		if outOfDomain {
+			c.Discard("pair outside the asserted order domain")
+			return
 		}
 		c.Feature("sql.where")
 		c15SQLCheck(c, doc(), sql, want, "id", false)
@@ -361,13 +383,72 @@ func c15SQL(c *fw.Case) {
 		var want []any
 		for _, r := range lt {
 			for _, v := range lv {
-				if exact(keyOf(r), v) == 0 {
+				if exactLit(keyOf(r), v) == 0 {
 					want = append(want, r.(map[string]any)["id"])
 					break
 				}
 			}
 		}
+		if outOfDomain {
+			c.Discard("pair outside the asserted order domain")
+			return
+		}
 		c.Feature("sql.in")
+		c15SQLCheck(c, doc(), sql, want, "id", false)
+	case 4: // BETWEEN with number or string bounds
+		lit := func() (any, string) {
+			if c.Chance(0.5) {
+				v := c15SQLStrs[c.Intn(len(c15SQLStrs))]
+				return v, "'" + v.(string) + "'"
+			}
+			v := c15SQLNums[c.Intn(len(c15SQLNums))]
+			return v, fmt.Sprint(v)
+		}
+		lo, loS := lit()
+		hi, hiS := lit()
+		neg := c.Chance(0.3)
+		sql := "SELECT id FROM lt WHERE k " + map[bool]string{true: "NOT ", false: ""}[neg] + "BETWEEN " + loS + " AND " + hiS
+		var want []any
+		for _, r := range lt {
+			a, ok1, _ := c15Expect(keyOf(r), asLit(lo))
+			b, ok2, _ := c15Expect(keyOf(r), asLit(hi))
+			if !ok1 || !ok2 {
+				c.Discard("pair outside the asserted order domain")
+				return
+			}
+			if (a >= 0 && b <= 0) != neg {
+				want = append(want, r.(map[string]any)["id"])
+			}
+		}
+		c.Feature("sql.between")
+		c15SQLCheck(c, doc(), sql, want, "id", false)
+	case 5: // IN with a long literal list
+		var lits []string
+		var lv []any
+		for i := 0; i < 9+c.Intn(6); i++ {
+			v := c15SQLNums[c.Intn(len(c15SQLNums))]
+			lv = append(lv, v)
+			lits = append(lits, fmt.Sprint(v))
+		}
+		neg := c.Chance(0.3)
+		sql := "SELECT id FROM lt WHERE k " + map[bool]string{true: "NOT ", false: ""}[neg] + "IN (" + strings.Join(lits, ", ") + ")"
+		var want []any
+		for _, r := range lt {
+			found := false
+			for _, v := range lv {
+				if exactLit(keyOf(r), v) == 0 {
+					found = true
+				}
+			}
+			if found != neg {
+				want = append(want, r.(map[string]any)["id"])
+			}
+		}
+		if outOfDomain {
+			c.Discard("pair outside the asserted order domain")
+			return
+		}
+		c.Feature("sql.in.long")
 		c15SQLCheck(c, doc(), sql, want, "id", false)
 	case 2: // ORDER BY (numbers only: a total order there)
 		lt = mk(3+c.Intn(8), false)
